@@ -46,8 +46,12 @@ func runParallel(fm *Frame, functions ...Callable) error {
 			VerifTrace(fm, "rp.start", vtid, i)
 			err := function.Call(fm2, NoArgs, NoOpts)
 			VerifTrace(fm, "rp.finish", vtid, i, err)
-			if err != nil {
-				*pexc = err.(Exception)
+			if exc, ok := err.(Exception); ok {
+				*pexc = exc
+			} else if err != nil {
+				// Not every error of a call is an exception: an arity mismatch
+				// or an unsupported option is returned as is.
+				*pexc = &exception{err, fm2.traceback}
 			}
 			VerifTrace(fm, "rp.done", vtid, i)
 			wg.Done()
